@@ -3,7 +3,7 @@
 From Coq Require Import List NArith Bool Lia String.
 From Verif.Common Require Import Packet PolicyRef Ipt.
 From Verif.C08 Require Import Model Spec ProofsFilter.
-From Verif.C09 Require Import Model ProofsPolicy ProofsModel.
+From Verif.C09 Require Import Model ProofsPolicy ProofsQos ProofsModel.
 From Verif.C09 Require Spec.
 From Verif.C11 Require Import Bpf Model.
 From Verif.C11 Require Spec ProofsMain ProofsFinal.
@@ -181,6 +181,7 @@ Qed.
 
 Lemma ipt_agree : forall c e ec v name (mtiers : list mtier) (mprofs : list mprofile) tbl tiers profs f p,
   marks_ok c = true -> ec_type ec = TNormal -> ec_admin_up ec = true ->
+  ec_qos_rate ec = false -> ec_qos_conn ec = false -> other_unmarked e ->
   C09.Spec.encap_blocked ec p = false -> pk_ct p = CtNew ->
   NoDup (map fst (render_endpoint ec c v name mtiers mprofs)) ->
   (forall r, In r (all_rules mtiers mprofs) -> rule_ok c e r) ->
@@ -191,11 +192,12 @@ Lemma ipt_agree : forall c e ec v name (mtiers : list mtier) (mprofs : list mpro
   ipt_vd c (Ipt.run_chain (3 + f) (render_endpoint ec c v name mtiers mprofs) e name p)
   = vd_of_ref (ref_verdict v tbl tiers profs p).
 Proof.
-  intros c e ec v name mtiers mprofs tbl tiers profs f p Hm Hty Hup Henc Hct Hnd Hrok Hdom Hwf Hv Hent Hsets Ht Hp.
-  pose proof (C09.ProofsModel.endpoint_verdict_model c e ec v name mtiers mprofs f p Hm Hty Hnd Hrok Hdom Hwf Hv Hent) as H.
+  intros c e ec v name mtiers mprofs tbl tiers profs f p Hm Hty Hup Hqr Hqc Hoth Henc Hct Hnd Hrok Hdom Hwf Hv Hent Hsets Ht Hp.
+  pose proof (C09.ProofsModel.endpoint_verdict_model c e ec v name mtiers mprofs f p Hm Hty Hnd Hrok Hdom Hoth Hwf Hv Hent) as H.
   apply ipt_vd_of_ok in H.
-  unfold C09.Spec.expected in H. rewrite Hup, Henc, Hty in H. simpl negb in H.
-  unfold C09.Spec.ct_in in H. rewrite Hct in H. simpl in H. rewrite !andb_false_r in H. simpl in H.
+  unfold C09.Spec.expected, C09.Spec.expected_tail, C09.Spec.expected_verdict in H.
+  rewrite Hup, Hqr, Hqc, Henc, Hty in H. simpl negb in H. rewrite !andb_false_r in H. cbn [andb] in H.
+  unfold C09.Spec.ct_in in H. rewrite Hct in H. simpl in H. rewrite ?andb_false_r in H. simpl in H.
   unfold C09.Spec.ref_verdict in H. rewrite Hsets, Ht, Hp in H.
   unfold ref_verdict.
   destruct (endpoint_verdict (ref_sets v tbl) (map ref_tier tiers) (map kf_rules profs) p); exact H.
